@@ -94,6 +94,15 @@ theorem restore_restores (env : Env) (hwf : env.WF) (hrr : env.plan .restoreRead
     ∀ q, (restore env (snapshot d0) d).1.get q = d0.get q :=
   restore_correct env hwf hrr hnf d0 d hunc
 
+/-- `storeFileOnDisk` = unlink (error ignored) + create-TRUNCATE + write: after a successful store the
+    file holds exactly the new bytes, whether or not the unlink worked — so a failing unlink (during a
+    save or inside `Restore()`) is not a failure, and every theorem above holds under such faults
+    (`Step.saveUnlink`, `Step.restoreUnlink` are ordinary steps, not part of `RestoreFaultFree`). -/
+theorem store_writes_exactly_the_new_bytes (unlinkFails : Bool) (d : Disk) (p : Path) (c : Bytes) (q : Path) :
+    (store unlinkFails false d p c).2 = true ∧
+    (store unlinkFails false d p c).1.get q = if q = p then some c else d.get q :=
+  ⟨rfl, get_write_unlinked unlinkFails d p c q⟩
+
 /-! ## Two overlapping pushes (lock discipline: `TryLock` first, snapshot inside the critical section) -/
 
 /-- A push that finds `handlingLock` taken is answered 226 and touches nothing. -/
@@ -245,6 +254,15 @@ example :
     (acceptedInOrder a b t .aThenB).length = 1 ∧
     (runTwo (demoEnv none) wState a b .aDuringB).ra.status = 226 ∧
     sameDisk (runTwo (demoEnv none) wState a b .aDuringB).final.disk wState.disk = true := by
+  decide
+
+/-- `rollback` under a failing unlink inside `Restore()` (a longer rejected content is replaced by the
+    shorter backed-up one): still byte for byte the old tree. -/
+example :
+    let env := demoEnv (some (.restoreUnlink (.flow "a.yaml")))
+    let req : Req := ⟨.configuration, true, .payload [⟨.flow "a.yaml", some "v2-much-longer"⟩, ⟨.flow "b.yaml", some "bad"⟩], false⟩
+    (Step.restoreUnlink (.flow "a.yaml")).inRestore = false ∧
+    (handle env wState req).status = 422 ∧ sameDisk (handle env wState req).disk wState.disk = true := by
   decide
 
 /-- Early rejections: bad base64 in the second item; backup read failing; GET (former F08e). -/
